@@ -108,6 +108,8 @@ def population():
                                  created='2020-01-05T00:00:00Z', modified='2020-01-05T00:00:00Z'))
     objs.append(v21.File(id=ID('file', 6), name='f.txt', hashes={'MD5': 'a' * 32}))
     objs.append(v21.Identity(id='identity--ABCDEF07-0000-4000-8000-00000000ABCD', name='UPPER', created='2020-01-06T00:00:00Z', modified='2020-01-06T00:00:00Z'))
+    # a 2.0 object: its timestamps carry exact millisecond precision, filter strings do not
+    objs.append(stix2.v20.Identity(id=ID('identity', 8), name='old', identity_class='individual', created='2020-01-07T00:00:00.123Z', modified='2020-01-07T00:00:00.123Z'))
     return objs
 
 
@@ -122,6 +124,8 @@ def filter_pool():
             F('name', '=', 'alpha'), F('name', '!=', 'alpha'), F('name', 'in', ['alpha', 'gamma']), F('name', 'contains', 'a'), F('name', '>=', 'b'), F('name', '<', 'beta'),
             F('created', '=', '2020-01-01T00:00:00Z'), F('created', '=', '2020-01-01T00:00:00.000Z'), F('created', '>', '2020-01-01T00:00:00Z'), F('created', '<=', '2020-01-02T00:00:00.000001Z'),
             F('modified', '>=', '2020-01-02T00:00:00.5Z'), F('modified', '<', '2020-01-02T00:00:00.500001Z'), F('created', '>', dtm.datetime(2020, 1, 2, tzinfo=dtm.timezone.utc)),
+            F('created', '<', '2020-01-07T00:00:00.1235Z'), F('created', '=', '2020-01-07T00:00:00.1234Z'), F('modified', '>=', '2020-01-07T00:00:00.123001Z'), F('modified', '!=', '2020-01-07T00:00:00.12309Z'),
+            F('created', '=', '2020-01-07T00:00:00.123000Z'), F('modified', '<=', '2020-01-06T23:59:59.9999Z'),
             F('labels', '=', 'a'), F('labels', 'contains', 'a'), F('labels', 'in', ['b', 'z']), F('labels', '!=', 'a'),
             F('external_references.source_name', '=', 'src'), F('external_references.external_id', '=', 'e1'), F('external_references.url', '!=', 'zzz'),
             F('hashes.MD5', '=', 'a' * 32), F('source_ref', '=', ID('identity', 1)), F('relationship_type', 'in', ['uses', 'x']), F('nonexistent', '=', 1), F('is_family', '=', False)]
